@@ -72,12 +72,24 @@ class Lab:
         def TB(s):
             return Tensor(s[1], {"i": Bint[2]})
 
+        # Spellings of one constant: structural equality of Number(0.5) does not depend on whether
+        # the datum arrives as a python float or as a numpy scalar (an element taken out of an
+        # array).  The spec has ONE key for NUM; the driver alternates the spelling per call
+        # (found by a seeded fault that keyed numpy scalars by identity).
+        self._num_calls = 0
+        half = np.array([0.5, 0.25])
+
+        def NUMv():
+            self._num_calls += 1
+            k = self._num_calls % 3
+            return 0.5 if k == 0 else (np.float64(0.5) if k == 1 else half[0])
+
         self.term_recipes = {
             "VX": lambda s: Variable("x", Bint[3]),
             "TA": TA,
             "TB": TB,
-            "NUM": lambda s: Number(0.5),
-            "BXN": lambda s: Binary(ops.add, Variable("x", Bint[3]), Number(0.5)),
+            "NUM": lambda s: Number(NUMv()),
+            "BXN": lambda s: Binary(ops.add, Variable("x", Bint[3]), Number(NUMv())),
             "BIN": lambda s: Binary(ops.add, TA(s), TB(s)),
             "RED": lambda s: Reduce(ops.add, TA(s), frozenset({Variable("i", Bint[2])})),
         }
